@@ -196,7 +196,7 @@ impl Work {
         }
         let seeded = match tier {
             Tier::Quick => 600,
-            Tier::Thorough => 12000,
+            Tier::Thorough => 24000,
         } * fam.seeded_scale;
         if fam.gen {
             n += seeded;
@@ -433,7 +433,7 @@ impl Work {
         }
         let seeded = match ctx.tier {
             Tier::Quick => 600,
-            Tier::Thorough => 12000,
+            Tier::Thorough => 24000,
         } * fam.seeded_scale;
         if fam.gen {
             if i < seeded {
